@@ -13,29 +13,45 @@ func (vx *Vaxis) QueryColor(c Color) Color {
 	select { case <-vx.chColor: default: } // (F203) drop a reply nobody asked for
 	vx.tw.WriteStringLocked(tparm(osc4, p[0]))
 	resp := <-vx.chColor
-	var r, g, b int
 	prefix := fmt.Sprintf("4;%v;", p[0])
-	_, err := fmt.Sscanf(resp, prefix+"rgb:%x/%x/%x", &r, &g, &b)
-	if err != nil { return Color(0) }
-	return RGBColor(uint8(r), uint8(g), uint8(b))
+	col, ok := parseColorReply(resp, prefix)   // (F303 repaired)
+	if !ok { return Color(0) }
+	return col
+}
+func parseColorReply(resp string, prefix string) (Color, bool) {
+	if !strings.HasPrefix(resp, prefix+"rgb:") { return Color(0), false }
+	channels := strings.Split(strings.TrimPrefix(resp, prefix+"rgb:"), "/")
+	if len(channels) != 3 { return Color(0), false }
+	var rgb [3]uint8
+	for i, ch := range channels {
+		n := len(ch)
+		if n < 1 || n > 4 { return Color(0), false }
+		v, err := strconv.ParseUint(ch, 16, 16)
+		if err != nil { return Color(0), false }
+		max := uint64(1)<<(4*n) - 1
+		rgb[i] = uint8(v * 0xFFFF / max >> 8)
+	}
+	return RGBColor(rgb[0], rgb[1], rgb[2]), true
 }
 ```
-`QueryForeground` / `QueryBackground` are the same with the formats `"10;rgb:%x/%x/%x"` / `"11;rgb:%x/%x/%x"`.
+`QueryForeground` / `QueryBackground` are the same with the prefixes `"10;"` / `"11;"`.
 
-`fmt.Sscanf` is modelled for exactly the format shape used here — literal text, then three `%x`
-verbs into `int`s separated by literal `/` (fmt/scan.go: `doScanf`, `advance`, `scanOne`,
-`scanInt`, `scanNumber`, `SkipSpace`; `strconv.ParseInt(tok, 16, 64)`):
-* a literal rune of the format must equal the next input rune (no blank skipping, EOF is an error);
-* before a verb blanks are skipped (`SkipSpace`; a newline is an error in `Sscanf`);
-* `%x` into an `int`: EOF is an error; an optional sign; then at least one rune out of
-  `0123456789aAbBcCdDeEfF_`, as many as follow; the token goes to `ParseInt(tok, 16, 64)`, which
-  rejects `_` (only legal with base 0) and values outside the `int64` range;
-* input left over after the last verb is ignored.
-The input is the list of code points of the payload (`string(seq.Payload)` re-decoded by `Sscanf`;
-assumption of C03: the parser delivers valid code points).
+`colorOfReply` follows `parseColorReply` (round 4).  `strconv.ParseUint(ch, 16, 16)` accepts exactly
+the non-empty strings of hexadecimal digits (either case; no sign, no `_` with an explicit base)
+whose value fits 16 bits; with `1 ≤ len(ch) ≤ 4` the value always fits.  `len(ch)` counts bytes and
+the model counts code points: the two differ only for a channel with a non-ASCII rune, which is not
+a hexadecimal digit, so both reject it.  `x >> 8` of an unsigned value is `x / 256`.
+
+Before the repair the requesters parsed with `fmt.Sscanf(resp, prefix+"rgb:%x/%x/%x", &r, &g, &b)`
+and returned `RGBColor(uint8(r), uint8(g), uint8(b))`; that parse is kept below as
+`colorOfReplySscanf` (with the model of `Sscanf` for this format shape: literal text, blanks before
+a verb, sign, the digit set `0-9a-fA-F_`, `ParseInt(tok, 16, 64)`), because `Witness/F303.lean`
+proves over it that the old code did not return the colour reported.
+The input is the list of code points of the payload (assumption of C03: the parser delivers valid
+code points).
 -/
 namespace VaxisModel.Model.InputQuery
-open VaxisModel.Model.Color
+open VaxisModel.Model.Color VaxisModel.Model
 
 /-- `fmt.isSpace`. -/
 def isSpace (r : Nat) : Bool :=
@@ -112,11 +128,30 @@ def sscanf3 (lit : List Nat) (resp : List Nat) : Option (Int × Int × Int) :=
 /-- Go's `uint8(x)` for an `int`. -/
 def u8 (x : Int) : Nat := (x % 256).toNat
 
-/-- What the requester returns for the payload it received. -/
-def colorOfReply (lit : List Nat) (resp : List Nat) : Color :=
+/-- What the requesters returned for the payload they received BEFORE the F303 repair. -/
+def colorOfReplySscanf (lit : List Nat) (resp : List Nat) : Color :=
   match sscanf3 lit resp with
   | some (r, g, b) => rgbColor (u8 r) (u8 g) (u8 b)
   | none => 0
+
+/-- One channel in `parseColorReply`: 1–4 hexadecimal digits, scaled to 16 bits
+(`v * 0xFFFF / (1<<(4n) - 1)`), the high byte kept (`>> 8`). -/
+def parseChannel (ch : List Nat) : Option Nat :=
+  if ch.length < 1 || 4 < ch.length then none
+  else (hexNum ch 0).map fun v => v * 65535 / (16 ^ ch.length - 1) / 256
+
+/-- What the requester returns for the payload it received (`parseColorReply`, `Color(0)` when it
+reports failure); `lit` = the prefix followed by `rgb:`. -/
+def colorOfReply (lit : List Nat) (resp : List Nat) : Color :=
+  match matchLit lit resp with
+  | none => 0
+  | some rest =>
+    match Input.splitOn 47 rest with
+    | [a, b, c] =>
+      (match parseChannel a, parseChannel b, parseChannel c with
+       | some r, some g, some bl => rgbColor r g bl
+       | _, _, _ => 0)
+    | _ => 0
 
 def decimal (n : Nat) : List Nat := ascii (toString n)
 
@@ -140,9 +175,15 @@ def fgDrainGen : Bool := Gen.Caps.qf_stmts.contains "select { case <-vx.chFg: de
 def bgDrainGen : Bool := Gen.Caps.qb_stmts.contains "select { case <-vx.chBg: default: }"
 
 /-- XParseColor's reading of `h`, `hh`, `hhh`, `hhhh` (1–4 hexadecimal digits, scaled to 16 bits),
-reduced to the 8 bits a `vaxis.Color` holds.  Spec side (oracle), not used by the model. -/
+reduced to the 8 bits a `vaxis.Color` holds.  Spec side (oracle), written before the repair. -/
 def xparseChannel (digs : List Nat) : Option Nat :=
   if digs.isEmpty || 4 < digs.length || digs.contains 95 then none
   else (hexNum digs 0).map fun v => v * 65535 / (16 ^ digs.length - 1) / 256
+
+/-- "The answer is exactly the colour the reply reports", for a parse function: whenever the three
+channels are well-formed XParseColor groups the requester returns the colour they report. -/
+def ExactFor (parse : List Nat → List Nat → Color) : Prop :=
+  ∀ (lit r g b : List Nat) (vr vg vb : Nat), xparseChannel r = some vr → xparseChannel g = some vg → xparseChannel b = some vb →
+    parse lit (lit ++ (r ++ 47 :: (g ++ 47 :: b))) = rgbColor vr vg vb
 
 end VaxisModel.Model.InputQuery
